@@ -275,8 +275,9 @@ let () =
           (match exec_all d0 setup with
            | Err _ -> Printf.printf "%s SUP setup-err\n" id
            | Ok d1 ->
-             Printf.printf "%s SUP db=%s desired=%s compat=%s all=%s\n" id (b01 (db_ok_b d1))
-               (b01 (Stdlib.List.for_all desired_ok_b bx)) (b01 (compatible_b d1 bx)) (b01 (supported d1 bx)))
+             Printf.printf "%s SUP db=%s desired=%s compat=%s all=%s syntactic=%s feature=%s\n" id (b01 (db_ok_b d1))
+               (b01 (Stdlib.List.for_all desired_ok_b bx)) (b01 (compatible_b d1 bx)) (b01 (supported d1 bx))
+               (b01 (Stdlib.List.for_all desired_syntactic_b bx)) (b01 (in_feature_set d1 bx)))
         | ("engine", "E") | ("updown", "U") ->
           let fk = next_bool () in
           let (n1, a) = parse_xschema () in
